@@ -13,6 +13,7 @@
   keeps that forgery as a permanent negative case: `C03/pst13/*/extend-public-forge`.)
 -/
 import PCV.Proofs.PST13More
+import PCV.Proofs.PST13Extract
 import PCV.Props.Examples
 
 set_option synthInstance.maxSize 512
@@ -152,5 +153,84 @@ example : PST.check (PST.wfVK (3 : K) 5 11 [2, 7] 2 2 2) [27] [10, 20] [3] ⟨[1
 example : PST.check (PST.wfVK (3 : K) 5 11 [2, 7] 2 2 2) [27] [10, 20] [3] ⟨[10, 66], none⟩ [13]
     = .ok false := by decide
 example : (1 : K) * (22 - 11 * 10) ≠ 0 ∧ (5 : K) * 1 * 11 ≠ 0 := by decide
+
+/-! ### any algebraic forger solves the hardness problem -/
+
+/-- **Any algebraic forger hands over a polynomial with the trapdoor as a root (PST13, non-hiding).**
+Let `p` and the `aᵢ` be ANY functions of the trapdoor the forger can evaluate "in the exponent" over
+the published `powers_of_g` (multivariate polynomials with known coefficients): commitment
+`g·p(β⃗)`, witness elements `g·aᵢ(β⃗)`.  If the verifier accepts the value `v` at `z` under a
+challenge `ξ ≠ 0`, then `E(x) := ξ·(p(x) − v) − Σᵢ (xᵢ − zᵢ)·aᵢ(x)` vanishes at the trapdoor while
+`E(z) = ξ·(p(z) − v)`: for a false claim `E` is a non-zero polynomial the forger knows, and the secret
+trapdoor is among its roots.  (The challenge multiplies commitment and value but not the witnesses;
+with `aᵢ/ξ` in place of `aᵢ` this is `p(x) − v − Σ (xᵢ − zᵢ)·aᵢ(x)`.) -/
+theorem pst13_algebraic_forgery_reveals_trapdoor (g γ h : F) (β z : List F) (nv s D : Nat)
+    (v ξ : F) (ξs : List F) (p : List F → F) (a : List F → List F)
+    (hg : g ≠ 0) (hh : h ≠ 0) (hξ : ξ ≠ 0) (hv : v ≠ p z)
+    (hacc : PST.check (PST.wfVK g γ h β nv s D) [g * p β] z [v] ⟨(a β).map (g * ·), none⟩ (ξ :: ξs)
+      = .ok true) :
+    (ξ * (p β - v) - PST.linSumIdx β z 0 (a β) = 0)
+      ∧ (ξ * (p z - v) - PST.linSumIdx z z 0 (a z) ≠ 0) := by
+  refine ⟨PST.forgery_identity g γ h β z (a β) nv s D (p β) v ξ ξs hg hh hacc, ?_⟩
+  rw [PST.linSumIdx_self, sub_zero]
+  intro h0
+  rcases mul_eq_zero.1 h0 with h1 | h1
+  · exact hξ h1
+  · exact hv (sub_eq_zero.1 h1).symm
+
+/-- the same for multivariate polynomials in coefficient form -/
+theorem pst13_algebraic_forgery_mv (g γ h : F) (β z : List F) (nv s D : Nat) (v ξ : F)
+    (ξs : List F) (p : MVPoly F) (as : List (MVPoly F))
+    (hg : g ≠ 0) (hh : h ≠ 0) (hξ : ξ ≠ 0) (hv : v ≠ evalMV p z)
+    (hacc : PST.check (PST.wfVK g γ h β nv s D) [g * evalMV p β] z [v]
+      ⟨(as.map (fun q => evalMV q β)).map (g * ·), none⟩ (ξ :: ξs) = .ok true) :
+    (ξ * (evalMV p β - v) - PST.linSumIdx β z 0 (as.map (fun q => evalMV q β)) = 0)
+      ∧ (ξ * (evalMV p z - v) - PST.linSumIdx z z 0 (as.map (fun q => evalMV q z)) ≠ 0) :=
+  pst13_algebraic_forgery_reveals_trapdoor g γ h β z nv s D v ξ ξs (fun x => evalMV p x)
+    (fun x => as.map (fun q => evalMV q x)) hg hh hξ hv hacc
+
+/-- **Algebraic forger against a hiding commitment.**  Commitment `g·p(β⃗) + γ·r(β⃗)`, witnesses
+`g·aᵢ(β⃗) + γ·bᵢ(β⃗)`, any `random_v = ρ`: an accepted false value means the trapdoor is a root of
+the non-zero `E_p(x) = ξ·(p(x) − v) − Σ (xᵢ − zᵢ)·aᵢ(x)` (and `γ·E_r(β⃗) = 0` for
+`E_r(x) = ξ·r(x) − ρ − Σ (xᵢ − zᵢ)·bᵢ(x)`), or the forger has written the hiding generator as an explicit
+multiple of the plain one, `γ = −g·E_p(β⃗)/E_r(β⃗)` — which the independent sampling of `gamma_g` in
+`setup` is there to prevent. -/
+theorem pst13_algebraic_forgery_hiding (g γ h : F) (β z : List F) (nv s D : Nat) (v ρ ξ : F)
+    (ξs : List F) (p r : List F → F) (a b : List F → List F)
+    (hl : (a β).length = (b β).length) (hg : g ≠ 0) (hh : h ≠ 0) (hξ : ξ ≠ 0) (hv : v ≠ p z)
+    (hacc : PST.check (PST.wfVK g γ h β nv s D) [g * p β + γ * r β] z [v]
+      ⟨List.zipWith (fun x y => g * x + γ * y) (a β) (b β), some ρ⟩ (ξ :: ξs) = .ok true) :
+    (ξ * (p z - v) - PST.linSumIdx z z 0 (a z) ≠ 0) ∧
+    ((ξ * (p β - v) - PST.linSumIdx β z 0 (a β) = 0
+        ∧ γ * (ξ * r β - ρ - PST.linSumIdx β z 0 (b β)) = 0) ∨
+     (ξ * r β - ρ - PST.linSumIdx β z 0 (b β) ≠ 0 ∧
+      γ = -(g * (ξ * (p β - v) - PST.linSumIdx β z 0 (a β)))
+            / (ξ * r β - ρ - PST.linSumIdx β z 0 (b β)))) := by
+  have hid := PST.forgery_identity_hiding g γ h β z (a β) (b β) nv s D (p β) (r β) v ρ ξ ξs hl hh hacc
+  refine ⟨?_, ?_⟩
+  · rw [PST.linSumIdx_self, sub_zero]
+    intro h0
+    rcases mul_eq_zero.1 h0 with h1 | h1
+    · exact hξ h1
+    · exact hv (sub_eq_zero.1 h1).symm
+  · by_cases hr : ξ * r β - ρ - PST.linSumIdx β z 0 (b β) = 0
+    · left
+      rw [hr, mul_zero, add_zero] at hid
+      rcases mul_eq_zero.1 hid with h1 | h1
+      · exact absurd h1 hg
+      · exact ⟨h1, by rw [hr, mul_zero]⟩
+    · right
+      refine ⟨hr, ?_⟩
+      rw [eq_div_iff hr]
+      linear_combination hid
+
+/-- non-vacuity: on the key `g = 3, γ = 5, h = 11, β⃗ = (2, 7)` the forger functions `p(x) = x₀ + x₁`,
+witnesses `g·1, g·70` get the false value `v = p(z) + 3` accepted at `z = (10, 20)` under `ξ = 13`:
+`13·(9 − 33) = 1·(2 − 10) + 70·(7 − 20)` -/
+example : PST.check (PST.wfVK (3 : K) 5 11 [2, 7] 2 2 2) [3 * (2 + 7)] [10, 20] [10 + 20 + 3]
+      ⟨[1, 70].map ((3 : K) * ·), none⟩ [13] = .ok true
+    ∧ (13 : K) * ((2 + 7) - (10 + 20 + 3)) - PST.linSumIdx [2, 7] [10, 20] 0 [1, 70] = 0
+    ∧ (13 : K) * ((10 + 20) - (10 + 20 + 3)) - PST.linSumIdx ([10, 20] : List K) [10, 20] 0 [1, 70] ≠ 0 := by
+  decide
 
 end PCV.C03
